@@ -49,6 +49,8 @@ def shards(tier):
         for e in ('input', 'wide'):
             out.append({'block': b, 'place': 'top', 'en': e, 'domains': 1})
         out.append({'block': b, 'place': 'topmutate', 'en': 'input', 'domains': 1})
+        for p in ('self', 'parent', 'top'):
+            out.append({'block': b, 'place': p, 'en': 'input', 'domains': 1, 'nobase': 1})
         # a monitor-style leaf (inputs only) inside the gated hierarchy
         for p in ('parent', 'grand'):
             out.append({'block': b, 'place': p, 'en': 'input', 'domains': 1, 'probe': 1})
@@ -174,7 +176,11 @@ def build(d, gated):
             free.append(x)
             holder = hw if k == 0 else c.prev_g1
             py4hw.Reg(holder, tag + '_enreg', x, en)
-        drv = py4hw.ClockDriver('gclk' if d.get('samename') else tag + '_clk', base=hw.clockDriver, enable=en)
+        if d.get('nobase'):
+            # a stand-alone gated driver: enable= given, no base= (its own root clock)
+            drv = py4hw.ClockDriver(tag + '_clk', 25E6, enable=en)
+        else:
+            drv = py4hw.ClockDriver('gclk' if d.get('samename') else tag + '_clk', base=hw.clockDriver, enable=en)
         target = {'self': dut, 'parent': g1, 'grand': g2, 'nested': dut, 'nestedbase': dut,
                   'selfsib_a': dut, 'selfsib_b': dut, 'top': hw, 'topmutate': hw}[d['place']]
         if gated:
